@@ -178,11 +178,12 @@ func c03(c *eng.Ctx) {
 					ok = false
 				}
 			}
-			c.Check("R2", isReady, name, isReady.Pos(), ok, fmt.Sprintf("pinning %v must force IsReady()=%v on every path", pins, want))
+			c.Check("R2", isReady, name, isReady.Pos(), ok, fmt.Sprintf("pinning the status fields this way must force IsReady()=%v on every path", want))
 		}
-		force("Disabled=true ⇒ false", map[string]eng.AV{"s.Disabled": eng.AVBool(true)}, false)
-		force("Healthy=false ⇒ false", map[string]eng.AV{"s.Healthy": eng.AVBool(false)}, false)
-		force("enabled ∧ healthy ⇒ true", map[string]eng.AV{"s.Healthy": eng.AVBool(true), "s.Disabled": eng.AVBool(false)}, true)
+		rn := isReady.Params[0].Name() // receiver name: memory cells are "<receiver>.<field>"
+		force("Disabled=true ⇒ false", map[string]eng.AV{rn + ".Disabled": eng.AVBool(true)}, false)
+		force("Healthy=false ⇒ false", map[string]eng.AV{rn + ".Healthy": eng.AVBool(false)}, false)
+		force("enabled ∧ healthy ⇒ true", map[string]eng.AV{rn + ".Healthy": eng.AVBool(true), rn + ".Disabled": eng.AVBool(false)}, true)
 		// reads under the mutex
 		isLock := func(ins ssa.Instruction) bool {
 			return eng.IsPlainCall(ins, "(*sync.RWMutex).RLock", "(*sync.RWMutex).Lock") && eng.FieldAddrOf(eng.Receiver(ins.(ssa.CallInstruction)), tEndpointStatus, "mux")
@@ -382,7 +383,12 @@ func c03(c *eng.Ctx) {
 		// Disabled initial from the parameter
 		for _, st := range eng.StoresToField([]*ssa.Function{au}, tEndpointStatus, "Disabled") {
 			p, isP := st.Val.(*ssa.Parameter)
-			c.Check("R5", au, "new endpoint's disabled flag from the spec", st.Pos(), isP && p.Name() == "disabled", "")
+			isBool := false
+			if isP {
+				b, ok := p.Type().Underlying().(*types.Basic)
+				isBool = ok && b.Kind() == types.Bool
+			}
+			c.Check("R5", au, "new endpoint's disabled flag from the spec", st.Pos(), isP && isBool, "")
 		}
 	}
 	if eg := c.MustFunc(pkgClusters, "EnsureGatewayHealthCheck"); eg != nil {
